@@ -1,4 +1,10 @@
 import RactorModel.Lemmas.Rpc
+import RactorModel.Lemmas.RpcGroups
+import RactorModel.Lemmas.RpcForward
+import RactorModel.Lemmas.RpcSup
+import RactorModel.Lemmas.RpcResults
+import RactorModel.Lemmas.CallResult
+import RactorModel.Lemmas.CallRace
 
 /-!
 # C09 — every RPC completes and replies are never cross-wired
@@ -19,13 +25,41 @@ open Rpc
 observed — holds in every reachable state. -/
 theorem ok_reachable (ops : List Op) : ok (run ops) = true := ok_of_inv (inv_run ops)
 
-/-- (no cross-wiring) A caller gets `Success v` only if exactly `v` was sent on the reply
-port created for that very call — for any number of concurrent callers. -/
+/-- (wiring) A caller's result is read from the channel of port `c.rx` (`resolveVia`), not from
+its own record, so the model can express a cross-wired caller (`crossWiredExample` below). In
+every reachable state the receiving half a caller awaits belongs to the very port it created
+and put into its request: `rx = p`. -/
+theorem caller_reads_own_port (ops : List Op) (p : Nat) (c : Call)
+    (hc : (run ops).calls[p]? = some c) : c.rx = p := (wire_run ops).rx p c hc
+
+/-- (a port carries what was sent on it, once) `S.sent` is the ghost history of every
+`RpcReplyPort::send` the callee side performed. A `send(v)` on port `p` happened iff the
+channel of port `p` holds `v` — so at most one value is ever sent on a port. -/
+theorem sent_iff_channel_holds (ops : List Op) (p : Nat) (c : Call) (v : Nat)
+    (hc : (run ops).calls[p]? = some c) : (p, v) ∈ (run ops).sent ↔ c.loc = .replied v :=
+  (wire_run ops).sent p c hc v
+
+theorem port_written_at_most_once (ops : List Op) (p v w : Nat)
+    (hv : (p, v) ∈ (run ops).sent) (hw : (p, w) ∈ (run ops).sent) : v = w := by
+  have hlt := (wire_run ops).bound p v hv
+  have hc : (run ops).calls[p]? = some ((run ops).calls[p]) := List.getElem?_eq_getElem hlt
+  have h1 := ((wire_run ops).sent p _ hc v).mp hv
+  have h2 := ((wire_run ops).sent p _ hc w).mp hw
+  rw [h1] at h2; cases h2; rfl
+
+/-- (no cross-wiring) A caller gets `Success v` only if the callee side performed `send(v)` on
+the reply port created for that very call — the port `p` whose receiving half the caller reads
+(`rx = p`) — and `v` is the only value ever sent on it; for any number of concurrent callers,
+handlers replying late, from a detached task or from a stashed state. -/
 theorem success_is_own_reply (ops : List Op) (p : Nat) (c : Call) (v : Nat)
-    (hc : (run ops).calls[p]? = some c) (hs : c.res = some (.success v)) : c.loc = .replied v := by
-  have := (inv_run ops).okc p c hc
-  unfold callOk at this
-  simpa [hs] using this
+    (hc : (run ops).calls[p]? = some c) (hs : c.res = some (.success v)) :
+    c.rx = p ∧ (p, v) ∈ (run ops).sent ∧ (∀ w, (p, w) ∈ (run ops).sent → w = v) ∧ c.loc = .replied v := by
+  have hl : c.loc = .replied v := by
+    have := (inv_run ops).okc p c hc
+    unfold callOk at this
+    simpa [hs] using this
+  have hsent := ((wire_run ops).sent p c hc v).mpr hl
+  exact ⟨(wire_run ops).rx p c hc, hsent, fun w hw => port_written_at_most_once ops p w v hw hsent, hl⟩
 
 /-- `SenderError` is reported only when this call's own port was dropped unanswered. -/
 theorem senderError_is_own_drop (ops : List Op) (p : Nat) (c : Call)
@@ -35,14 +69,17 @@ theorem senderError_is_own_drop (ops : List Op) (p : Nat) (c : Call)
   simpa [hs] using this
 
 /-- (every RPC completes) In every reachable state a caller is still waiting ONLY while its
-port is alive somewhere — queued at or held by an actor that is still alive, or moved to a
-detached task — and (if it has a timeout) its deadline has not passed. Contrapositive: once
-the callee has stopped, been killed, failed or drained (its mailbox and everything it held is
-dropped), or the port was answered or dropped, or the deadline passed, the caller has its
-answer: `Success`, `SenderError` or `Timeout`. -/
+port is alive somewhere — queued at or held by an actor that is still alive, or inside the
+last state of a gracefully stopped callee whose termination event a LIVE supervisor still
+holds (queued or stashed), or moved to a detached task — and (if it has a timeout) its
+deadline has not passed. Contrapositive: once the callee has stopped, been killed, failed or
+drained (its mailbox and everything it held is dropped) and nobody keeps its last state, or
+the supervisor dropped the event or died, or the port was answered or dropped, or the deadline
+passed, the caller has its answer: `Success`, `SenderError` or `Timeout`. -/
 theorem waiting_only_while_port_alive (ops : List Op) (p : Nat) (c : Call)
     (hc : (run ops).calls[p]? = some c) (hw : c.res = none) :
     ((∃ a x, (c.loc = .mailbox a ∨ c.loc = .actor a) ∧ (run ops).actors[a]? = some x ∧ x.alive = true)
+      ∨ (∃ (a u : Nat) (y : Sup), c.loc = .event a ∧ (run ops).sups[u]? = some y ∧ y.alive = true ∧ (a ∈ y.inbox ∨ a ∈ y.stash))
       ∨ c.loc = .detached) ∧
     (∀ d, c.deadline = some d → (run ops).now < d) := by
   have hok := (inv_run ops).okc p c hc
@@ -63,24 +100,133 @@ theorem waiting_only_while_port_alive (ops : List Op) (p : Nat) (c : Call)
       cases hA : (run ops).actors[a]? with
       | none => simp [hA] at hloc
       | some x => exact Or.inl ⟨a, x, Or.inr rfl, hA, by simpa [hA] using hloc⟩
-    | detached => exact Or.inr rfl
+    | event a =>
+      simp only [hl] at hloc
+      obtain ⟨u, y, hy, ha, hm⟩ := supHolds_iff.mp hloc
+      exact Or.inr (Or.inl ⟨a, u, y, rfl, hy, ha, hm⟩)
+    | detached => exact Or.inr (Or.inr rfl)
     | replied v => simp [hl] at h1
     | dropped => simp [hl] at h1
   · intro d hd
     simpa [hd] using h2
 
 /-- (callee exit completes the call) The actor that owns a waiting call's port is the CALLEE
-itself: a caller still waits only if its callee is alive or a detached task holds the port.
-So when the callee stops, is killed, fails or finishes draining, every caller whose port it
-still owned has its answer (`SenderError`) — nobody hangs on a dead callee. -/
+itself: a caller still waits only if its callee is alive, or a detached task holds the port,
+or the port sits in the CALLEE's own last state inside a termination event that a live
+supervisor still holds. So when the callee stops, is killed, fails or finishes draining, every
+caller whose port it still owned has its answer (`SenderError`) unless a supervisor keeps the
+callee's state — nobody hangs on a dead callee whose state is gone. -/
 theorem waits_only_for_live_callee (ops : List Op) (p : Nat) (c : Call)
     (hc : (run ops).calls[p]? = some c) (hw : c.res = none) :
-    (∃ x, (run ops).actors[c.callee]? = some x ∧ x.alive = true) ∨ c.loc = .detached := by
-  rcases (waiting_only_while_port_alive ops p c hc hw).1 with ⟨a, x, hl, hx, ha⟩ | hd
+    (∃ x, (run ops).actors[c.callee]? = some x ∧ x.alive = true) ∨ c.loc = .detached ∨
+    (c.loc = .event c.callee ∧ ∃ (u : Nat) (y : Sup), (run ops).sups[u]? = some y ∧ y.alive = true ∧
+      (c.callee ∈ y.inbox ∨ c.callee ∈ y.stash)) := by
+  rcases (waiting_only_while_port_alive ops p c hc hw).1 with ⟨a, x, hl, hx, ha⟩ | ⟨a, u, y, hl, hy, hal, hm⟩ | hd
   · left
-    have := own_run ops p c hc a hl
+    have := own_run ops p c hc a (hl.elim Or.inl (fun h => Or.inr (Or.inl h)))
     rw [this]; exact ⟨x, hx, ha⟩
-  · exact Or.inr hd
+  · right; right
+    have := own_run ops p c hc a (Or.inr (Or.inr hl))
+    rw [this]; exact ⟨hl, u, y, hy, hal, hm⟩
+  · exact Or.inr (Or.inl hd)
+
+/-- (the property text, with its caveat visible) "If the callee stops, is killed, fails, drains or
+drops the port without replying, the caller gets SenderError instead of hanging": once the callee
+is no longer alive NO caller of it is still waiting — EXCEPT a caller whose port the callee's
+handler had moved elsewhere: to a detached task, or into the callee's own state when that state,
+boxed into `ActorTerminated(_, Some(state), _)` on a graceful stop, is still kept by a live
+supervisor (`stateKept`). Kill and handler failure never box the state (`exitActor`), so the
+second exception needs a graceful stop/drain AND a supervisor that retains the event; the default
+`handle_supervisor_evt` drops it at once. Without these two, `c.res ≠ none`. -/
+theorem dead_callee_completes_unless_port_moved (ops : List Op) (p : Nat) (c : Call) (x : Actor)
+    (hc : (run ops).calls[p]? = some c) (hx : (run ops).actors[c.callee]? = some x) (hdead : x.alive = false)
+    (hnd : c.loc ≠ .detached)
+    (hns : ¬ (c.loc = .event c.callee ∧ supHolds (run ops).sups c.callee = true)) : c.res ≠ none := by
+  intro hw
+  rcases waits_only_for_live_callee ops p c hc hw with ⟨y, hy, hal⟩ | hd | ⟨hl, u, y, hy, hal, hm⟩
+  · rw [hx] at hy; cases hy; rw [hdead] at hal; cases hal
+  · exact hnd hd
+  · exact hns ⟨hl, supHolds_iff.mpr ⟨u, y, hy, hal, hm⟩⟩
+
+/-- (the caveat is real — witness) The unqualified sentence "if the callee stops … the caller gets
+SenderError instead of hanging" is FALSE of the code: a callee whose handler kept the reply port
+in its state stops gracefully under a supervisor that stashes the `ActorTerminated` event; the
+callee is dead, the caller (no timeout) is still waiting, nothing is detached. (Corpus witness
+`corpus/C09/e-lts-rpc-stash-keeps-caller-waiting.ops`; the real code behaves the same.) The wait
+ends exactly when the supervisor drops the event, dies, or answers through the port
+(`event_port_held_and_not_failed`, `dropped_port_completes`). -/
+theorem stopped_callee_caller_may_wait_while_supervisor_keeps_state :
+    ∃ (ops : List Op) (p : Nat) (c : Call) (x : Actor),
+      (run ops).calls[p]? = some c ∧ c.res = none ∧ c.deadline = none ∧ c.loc ≠ .detached ∧
+      (run ops).actors[c.callee]? = some x ∧ x.alive = false :=
+  ⟨[.spawnSup, .spawnl 0, .call 0 none, .handle 0 .keep, .stop 0 .drop, .suphandle 0 true], 0,
+   ⟨0, none, .event 0, none, none, none, 0, 0⟩, ⟨false, false, [], [], some 0⟩, by decide⟩
+
+/-- (a kept state keeps its ports alive — and only a LIVE supervisor can keep it) A port
+inside a termination event is held, queued or stashed, by a supervisor that is alive; and
+while it is there its caller has NOT been failed: the caller is still waiting, or timed out
+(or its `multi_call` bailed out) — never `SenderError`, never `Success`, before the event is
+dropped or the supervisor answers through the port. -/
+theorem event_port_held_and_not_failed (ops : List Op) (p : Nat) (c : Call) (a : Nat)
+    (hc : (run ops).calls[p]? = some c) (hl : c.loc = .event a) :
+    (∃ (u : Nat) (y : Sup), (run ops).sups[u]? = some y ∧ y.alive = true ∧ (a ∈ y.inbox ∨ a ∈ y.stash)) ∧
+    (c.res = none ∨ c.res = some .timeout ∨ c.res = some .abandoned) ∧ c.callee = a := by
+  have hloc := (inv_run ops).loc p c hc
+  have hok := (inv_run ops).okc p c hc
+  unfold locOk at hloc
+  simp only [hl] at hloc
+  refine ⟨supHolds_iff.mp hloc, ?_, own_run ops p c hc a (Or.inr (Or.inr hl))⟩
+  unfold callOk at hok
+  cases hr : c.res with
+  | none => exact Or.inl rfl
+  | some r => cases r <;> simp_all
+
+/-- (the caller completes exactly when the event is dropped) As soon as a port has been
+dropped — by a handler, with the callee's mailbox or state, or with the termination event that
+carried it (supervisor dropped the event, dropped it from its stash, or died) — its caller is
+complete: with `SenderError`, unless it had already timed out at or after its deadline (or
+the send itself failed / its `multi_call` bailed out). Together with
+`event_port_held_and_not_failed` and `senderError_is_own_drop`: `SenderError` is reported
+exactly from the drop of the event on, never while a supervisor still holds the state. -/
+theorem dropped_port_completes (ops : List Op) (p : Nat) (c : Call)
+    (hc : (run ops).calls[p]? = some c) (hl : c.loc = .dropped) :
+    c.res = some .senderError ∨ c.res = some .sendErr ∨ c.res = some .abandoned ∨
+    (c.res = some .timeout ∧ ∃ d, c.deadline = some d ∧ d ≤ (run ops).now) := by
+  have hok := (inv_run ops).okc p c hc
+  unfold callOk at hok
+  cases hr : c.res with
+  | none => simp [hr, hl] at hok
+  | some r =>
+    cases r with
+    | success v => simp [hr, hl] at hok
+    | senderError => exact Or.inl rfl
+    | sendErr => exact Or.inr (Or.inl rfl)
+    | abandoned => exact Or.inr (Or.inr (Or.inl rfl))
+    | timeout =>
+      refine Or.inr (Or.inr (Or.inr ⟨rfl, ?_⟩))
+      simp only [hr] at hok
+      cases hd : c.deadline with
+      | none => simp [hd] at hok
+      | some d => exact ⟨d, rfl, by simpa [hd] using hok⟩
+
+/-- (what dropping an event does) In ANY state: a port inside the event of actor `a` that no
+live supervisor holds any more is dropped by the sweep that follows every supervisor-side
+removal (`suphandle … drop`, `supdrop`, `supexit`) … -/
+theorem orphaned_event_port_is_dropped (s : S) (p : Nat) (c : Call) (a : Nat)
+    (hc : s.calls[p]? = some c) (hl : c.loc = .event a) (hno : supHolds s.sups a = false) :
+    (sweep s).calls[p]? = some { c with loc := .dropped } :=
+  sweep_orphan s p c a hc hl hno
+
+/-- … and the `resolve` that ends the same step completes a caller still waiting on it with `SenderError`. -/
+theorem dropped_waiting_call_gets_senderError (now : Nat) (c : Call)
+    (hw : c.res = none) (hl : c.loc = .dropped) : (resolveCall now c).res = some .senderError := by
+  unfold resolveCall; simp [hw, hl]
+
+/-- A late reply through a port taken out of a stashed state completes the caller with
+`Success` of that very value (`resolve` on a waiting call whose port was answered). -/
+theorem replied_waiting_call_gets_success (now : Nat) (c : Call) (v : Nat)
+    (hw : c.res = none) (hl : c.loc = .replied v) : (resolveCall now c).res = some (.success v) := by
+  unfold resolveCall; simp [hw, hl]
 
 /-- (timeout) With a timeout the caller has an answer no later than the deadline. -/
 theorem answered_by_deadline (ops : List Op) (p : Nat) (c : Call) (d : Nat)
@@ -111,18 +257,171 @@ theorem dead_actor_owns_no_port (ops : List Op) (p : Nat) (c : Call) (a : Nat) (
   unfold locOk at hloc
   constructor <;> intro hl <;> simp [hl, hx, hdead] at hloc
 
+/-- (an event has ONE holder) In every reachable state the termination event of an actor is held
+by at most one supervisor, at most once (queued or stashed), and only events of actors that have
+stopped are held. -/
+theorem event_held_by_one_supervisor (ops : List Op) (u u' a : Nat) (x x' : Sup)
+    (hx : (run ops).sups[u]? = some x) (hx' : (run ops).sups[u']? = some x')
+    (ha : a ∈ x.inbox ++ x.stash) :
+    (x.inbox ++ x.stash).Nodup ∧ (u ≠ u' → a ∉ x'.inbox ++ x'.stash) ∧
+    ∃ y, (run ops).actors[a]? = some y ∧ y.alive = false := by
+  have hU := supUniq_run ops
+  refine ⟨hU.nodup u x hx, fun hne => hU.disj u u' x x' a hne hx hx' ha, hU.dead u x a hx ha⟩
+
+/-- (the caller completes EXACTLY when the event is dropped — the dynamic half) After any
+operation sequence: if a live supervisor `u` has stashed the event of `a` and drops it
+(`supdrop u a`), every port that was inside that event is dropped in that very step and a caller
+still waiting on it has `SenderError` at the end of the step (a caller that already timed out
+keeps its `Timeout`). Before that step the caller was not failed (`event_port_held_and_not_failed`). -/
+theorem supdrop_completes_callers (ops : List Op) (u a p : Nat) (x : Sup) (c : Call)
+    (hx : (run ops).sups[u]? = some x) (hal : x.alive = true) (ha : a ∈ x.stash)
+    (hc : (run ops).calls[p]? = some c) (hl : c.loc = .event a) :
+    ∃ c', (run (ops ++ [.supdrop u a])).calls[p]? = some c' ∧ c'.loc = .dropped ∧
+      (c.res = none → c'.res = some .senderError) :=
+  supdrop_completes ops u a p x c hx hal ha hc hl
+
+/-- … the same when the supervisor drops the event at the head of its queue instead of stashing it … -/
+theorem suphandle_drop_completes_callers (ops : List Op) (u a p : Nat) (x : Sup) (rest : List Nat) (c : Call)
+    (hx : (run ops).sups[u]? = some x) (hal : x.alive = true) (hin : x.inbox = a :: rest)
+    (hc : (run ops).calls[p]? = some c) (hl : c.loc = .event a) :
+    ∃ c', (run (ops ++ [.suphandle u false])).calls[p]? = some c' ∧ c'.loc = .dropped ∧
+      (c.res = none → c'.res = some .senderError) :=
+  suphandle_drop_completes ops u a p x rest c hx hal hin hc hl
+
+/-- … and when the supervisor itself is killed with the event queued or stashed. -/
+theorem supexit_completes_callers (ops : List Op) (u a p : Nat) (x : Sup) (c : Call)
+    (hx : (run ops).sups[u]? = some x) (hal : x.alive = true) (ha : a ∈ x.inbox ∨ a ∈ x.stash)
+    (hc : (run ops).calls[p]? = some c) (hl : c.loc = .event a) :
+    ∃ c', (run (ops ++ [.supexit u])).calls[p]? = some c' ∧ c'.loc = .dropped ∧
+      (c.res = none → c'.res = some .senderError) :=
+  supexit_completes ops u a p x c hx hal ha hc hl
+
+/-- (nothing survives the supervisor) No port is inside an event that only dead supervisors
+hold: when a supervisor dies, the events queued at it and the events it stashed are dropped
+with everything in them. -/
+theorem dead_supervisor_holds_no_event (ops : List Op) (p : Nat) (c : Call) (a : Nat)
+    (hc : (run ops).calls[p]? = some c) (hl : c.loc = .event a)
+    (hdead : ∀ (u : Nat) (y : Sup), (run ops).sups[u]? = some y → (a ∈ y.inbox ∨ a ∈ y.stash) → y.alive = false) : False := by
+  obtain ⟨⟨u, y, hy, hal, hm⟩, _⟩ := event_port_held_and_not_failed ops p c a hc hl
+  have := hdead u y hy hm
+  rw [hal] at this; cases this
+
 /-- (ports are linear) A port queued in a mailbox is queued exactly once, at exactly one actor. -/
 theorem port_queued_once (ops : List Op) (a : Nat) (x : Actor) (p : Nat)
     (hx : (run ops).actors[a]? = some x) : x.mailbox.count (Item.call p) ≤ 1 :=
   (inv_run ops).nd a x p hx
 
-/-- `multi_call` sends one fresh port per actor in request order: the calls it creates, in
-port order, target a prefix of the requested actors — all of them unless a send failed (then
-the group is abandoned and the caller gets `Err` at once). Results are read back by port
-index, i.e. in request order. -/
-theorem multi_call_request_order (s : S) (g : Nat) (t : Option Nat) (as : List Nat) :
+/-- (`multi_call`, request order — every reachable state) `mreqs[g]` is the list of actors the
+`g`-th `multi_call` was asked to call. The calls it created (`groupMembers`, in port order = the
+order of the result vector, `groupResults`) target a PREFIX of that request, in request order; and
+unless one of its sends failed (`groupFailed`: the caller got `Err` at once, there is no result
+vector) they target the WHOLE request: one fresh port per requested actor, `results[i]` is the
+result of the call to the `i`-th requested actor. -/
+theorem multi_call_request_order (ops : List Op) (g : Nat) (reqs : List Nat)
+    (hr : (run ops).mreqs[g]? = some reqs) :
+    (groupMembers (run ops) g).map (·.callee) = reqs.take (groupMembers (run ops) g).length ∧
+    (groupFailed (run ops) g = false → (groupMembers (run ops) g).map (·.callee) = reqs) := by
+  obtain ⟨h1, h2⟩ := (ginv_run ops).mem g reqs hr
+  have hlen : (memberCallees (run ops).calls g).length = (groupMembers (run ops) g).length := by
+    simp [memberCallees, groupMembers]
+  rw [hlen] at h1 h2
+  refine ⟨h1, fun hnf => ?_⟩
+  rcases h2 with h2 | h2
+  · have : memberCallees (run ops).calls g = reqs := by
+      rw [h1, h2]; exact List.take_of_length_le (Nat.le_refl _)
+    exact this
+  · have : groupFailed (run ops) g = true := h2
+    rw [this] at hnf; cases hnf
+
+/-- (`multi_call`, results are indexed by request) The `i`-th entry of the result vector is the
+result of a call whose callee is the `i`-th requested actor — and, by `success_is_own_reply`, a
+`Success v` in it is the value sent on that very call's own port. -/
+theorem multi_call_result_index (ops : List Op) (g : Nat) (reqs : List Nat) (i : Nat) (c : Call)
+    (hr : (run ops).mreqs[g]? = some reqs) (hc : (groupMembers (run ops) g)[i]? = some c) :
+    reqs[i]? = some c.callee ∧ (groupResults (run ops) g)[i]? = some c.res := by
+  have h1 := (multi_call_request_order ops g reqs hr).1
+  have hi : i < (groupMembers (run ops) g).length := (List.getElem?_eq_some_iff.mp hc).1
+  refine ⟨?_, by simp [groupResults, List.getElem?_map, hc]⟩
+  have h2 : ((groupMembers (run ops) g).map (·.callee))[i]? = some c.callee := by
+    simp [List.getElem?_map, hc]
+  rw [h1, List.getElem?_take] at h2
+  simpa [hi] using h2
+
+/-- (`multi_call`, the result vector is written through the threaded index) `mresults[g]` models the
+vector of rpc.rs: created with one empty entry per member, then `results[slot] = r` for each member as
+it completes (`writeFrom`, in completion order), where `slot` is the `enumerate` index threaded into the
+member's receiver task at send time. In every reachable state, for a group whose sends all succeeded:
+the `i`-th member (request order) carries slot `i`, and the vector IS the list of the members' results
+in request order (`groupResults`) — entries of members still waiting are empty. With
+`multi_call_request_order` / `multi_call_result_index`: `results[i]` is the result of the call to the
+`i`-th requested actor, whatever the completion order. -/
+theorem multi_call_result_vector (ops : List Op) (g : Nat) (v : List (Option Res))
+    (hv : (run ops).mresults[g]? = some v) (hnf : groupFailed (run ops) g = false) :
+    v = groupResults (run ops) g ∧
+    ∀ (i : Nat) (c : Call), (groupMembers (run ops) g)[i]? = some c → c.slot = i := by
+  have hm := minv_run ops
+  refine ⟨?_, ?_⟩
+  · rw [hm.vec g v hv]
+    unfold vecOf groupResults groupMembers
+    apply List.map_congr_left
+    intro c hc
+    have : failedRes c = false := by
+      unfold groupFailed groupMembers at hnf
+      rw [List.any_eq_false] at hnf
+      have := hnf c hc
+      simpa using this
+    simp [resView, this]
+  · intro i c hc
+    have hs := hm.slots g
+    unfold slotsOf at hs
+    have h1 : ((List.filter (gq g) (run ops).calls).map (·.slot))[i]? = some c.slot := by
+      have : (List.filter (gq g) (run ops).calls)[i]? = some c := hc
+      simp [List.getElem?_map, this]
+    rw [hs] at h1
+    have hi : i < ((List.filter (gq g) (run ops).calls).map (·.slot)).length := by
+      have h2 : (List.filter (gq g) (run ops).calls)[i]? = some c := hc
+      have := (List.getElem?_eq_some_iff.mp h2).1
+      simpa using this
+    rw [List.getElem?_range hi] at h1
+    exact (Option.some.inj h1).symm
+
+/-- (`multi_call`, answer by T) once the deadline of every member has passed the whole group is
+done: `multi_call` has returned its vector (every member resolved individually —
+`answered_by_deadline` — so the `JoinSet` is exhausted). -/
+theorem multi_call_answered_by_deadline (ops : List Op) (g : Nat)
+    (hd : ∀ c ∈ groupMembers (run ops) g, ∃ d, c.deadline = some d ∧ d ≤ (run ops).now) :
+    groupDone (run ops) g = true := by
+  unfold groupDone
+  rw [List.all_eq_true]
+  intro c hc
+  obtain ⟨d, hd1, hd2⟩ := hd c hc
+  have hmem : c ∈ (run ops).calls := (List.mem_filter.mp hc).1
+  obtain ⟨p, hp⟩ := List.mem_iff_getElem?.mp hmem
+  have := answered_by_deadline ops p c d hp hd1 hd2
+  cases hres : c.res with
+  | none => exact absurd hres this
+  | some r => rfl
+
+/-- (one `multi_call` step, any state) the calls it creates, in port order, target a prefix of the
+requested actors. -/
+theorem multi_call_step_request_order (s : S) (g : Nat) (t : Option Nat) (as : List Nat) :
     ∃ k, (sendMulti s g t as).calls.map (·.callee) = s.calls.map (·.callee) ++ as.take k :=
   sendMulti_callees s g t as
+
+/-- (`call_and_forward` forwards EXACTLY once — every reachable state) `fwdlog` is the ghost record
+of every forward ever attempted (call, target, value, accepted-by-target); its entries are exactly
+the messages `deliverForwards` hands to the targets (`Rpc.deliverForwards_eq_log`). For every call
+`p`: the number of forwards made for `p` is 1 if `p` is a forward-call whose caller task got
+`Success`, and 0 otherwise (no forward on timeout / SenderError / for ordinary calls; never a
+second one) — and that one forward went to `p`'s own target and carried `p`'s own reply (which by
+`success_is_own_reply` is the value sent on `p`'s own port). -/
+theorem forward_exactly_once (ops : List Op) (p : Nat) (c : Call) (hc : (run ops).calls[p]? = some c) :
+    ((run ops).fwdlog.filter (fun e => e.1 == p)).length =
+      (if (c.forward.isSome && isSucc c.res) = true then 1 else 0) ∧
+    (∀ e ∈ (run ops).fwdlog, e.1 = p → c.forward = some e.2.1 ∧ c.res = some (.success e.2.2.1)) := by
+  refine ⟨(finv_run ops).once p c hc, fun e he hep => ?_⟩
+  subst hep
+  exact (finv_run ops).val e he c hc
 
 /-- `call_and_forward` forwards at most once per call: a call that already has its result
 never triggers another forward (`deliverForwards` only looks at calls that were waiting). -/
@@ -131,6 +430,13 @@ theorem forward_only_on_transition (cs : List Call) (A : List Actor)
   deliverForwards_resolved cs A h
 
 /-! ### Non-vacuity -/
+
+/-- cross-wiring IS expressible: a caller whose receiver belongs to another call's port would get
+that call's reply (`caller_reads_own_port` shows no reachable state contains such a caller) -/
+def crossWiredExample : List Call :=
+  [⟨0, none, .replied 7, none, none, none, 1, 0⟩, ⟨0, none, .replied 9, none, none, none, 0, 0⟩]
+example : (crossWiredExample.map (resolveVia 0 crossWiredExample)).map (·.res) =
+    [some (.success 9), some (.success 7)] := by decide
 
 /-- two callers, replies in swapped order, one callee killed while holding a third call,
 a timeout, a late reply to the timed-out call -/
@@ -143,16 +449,245 @@ example : ((run exampleOps).calls.map (·.res)) =
     [some (.success 7), some (.success 42), some .senderError, some .timeout] := by decide
 example : ok (run exampleOps) = true := by decide
 
+/-- multi_call with mixed outcomes (reply / drop / timeout), one with a failing send, and
+call_and_forward: forwarded once, to a dead target (`false`), and not at all on timeout -/
+def exampleGroups : List Op :=
+  [.spawn, .spawn, .spawn, .mcall [0, 1, 2] (some 5), .handle 0 (.reply 11), .handle 1 .drop, .advance 5,
+   .exit 2, .mcall [0, 2, 1] none, .fcall 0 1 none, .fcall 0 2 none, .fcall 0 1 (some 2),
+   .handle 0 (.reply 7), .handle 0 (.reply 8), .handle 0 (.reply 9), .advance 2]
+example : groupResults (run exampleGroups) 0 = [some (.success 11), some .senderError, some .timeout] := by decide +kernel
+example : (run exampleGroups).mresults = [[some (.success 11), some .senderError, some .timeout], [none, none]] := by decide +kernel
+example : (run exampleGroups).mreqs = [[0, 1, 2], [0, 2, 1]] ∧ groupFailed (run exampleGroups) 1 = true := by decide +kernel
+example : (run exampleGroups).fwdlog = [(5, 1, 8, true), (6, 2, 9, false)] ∧
+    ((run exampleGroups).calls.map (·.res)).drop 5 = [some (.success 8), some (.success 9), some .timeout] := by decide +kernel
+
+/-- supervised callees: #0 keeps two ports in its state and stops gracefully — the callers keep
+waiting while the supervisor has the event queued, then stashed; the supervisor answers one
+through the stashed state, then drops the event (the other gets SenderError). #1 keeps a port,
+is stopped and its event dropped unhandled-then-dropped; #2 keeps a port and is KILLED (no
+state in the event: SenderError at once); #3's event dies with the supervisor. -/
+def exampleSup : List Op :=
+  [.spawnSup, .spawnl 0, .spawnl 0, .spawnl 0, .spawnl 0,
+   .call 0 none, .call 0 none, .call 1 none, .call 2 none, .call 3 none,
+   .handle 0 .keep, .handle 0 .keep, .handle 1 .keep, .handle 2 .keep, .handle 3 .keep,
+   .stop 0 .drop, .stop 1 .drop, .exit 2]
+
+example : ((run exampleSup).calls.map (·.res)) = [none, none, none, some .senderError, none] := by decide +kernel
+example : ((run (exampleSup ++ [.suphandle 0 true, .later 0 (.reply 5)])).calls.map (·.res)) =
+    [some (.success 5), none, none, some .senderError, none] := by decide +kernel
+example : ((run (exampleSup ++ [.suphandle 0 true, .later 0 (.reply 5), .supdrop 0 0, .suphandle 0 false])).calls.map (·.res)) =
+    [some (.success 5), some .senderError, some .senderError, some .senderError, none] := by decide +kernel
+example : ((run (exampleSup ++ [.suphandle 0 true, .stop 3 .drop, .supexit 0])).calls.map (·.res)) =
+    [some .senderError, some .senderError, some .senderError, some .senderError, some .senderError] := by decide +kernel
+example : ok (run (exampleSup ++ [.suphandle 0 true, .later 0 (.reply 5), .supdrop 0 0])) = true := by decide +kernel
+
+/-! ## BEGIN CallResult block (agent `ports`): `ractor/src/rpc/call_result.rs` and
+`impl From<CallResult<_>> for RactorErr<_>` — model `Model/CallResult.lean`, lemmas
+`Lemmas/CallResult.lean`, tie: E-PURE `harness/hcore/src/bin/rpc_pure.rs` + `Driver/C09Pure.lean`.
+What a caller can do with the `CallResult` the theorems above hand it. -/
+section CallResultBlock
+open CallRes
+variable {α β γ ε : Type}
+
+/-- exactly one of `is_success` / `is_timeout` / `is_send_error` holds -/
+theorem callResult_flags_exactly_one (r : CR α) :
+    (isSuccess r = true ∧ isTimeout r = false ∧ isSendError r = false) ∨
+    (isSuccess r = false ∧ isTimeout r = true ∧ isSendError r = false) ∨
+    (isSuccess r = false ∧ isTimeout r = false ∧ isSendError r = true) := flags_exactly_one r
+
+/-- `unwrap` returns exactly the reply of a `Success` and panics on (and only on) the two
+failure variants; `expect` likewise, its panic text starting with the caller's message -/
+theorem callResult_unwrap (r : CR α) (msg : String) :
+    (∀ v, CallRes.unwrap r = .ok v ↔ r = .success v) ∧
+    ((∃ m, CallRes.unwrap r = .error m) ↔ isSuccess r = false) ∧
+    (∀ v, CallRes.expect r msg = .ok v ↔ r = .success v) ∧
+    ((∃ m, CallRes.expect r msg = .error m) ↔ isSuccess r = false) ∧
+    (∀ m, CallRes.expect r msg = .error m → ∃ tail, m = msg ++ tail) :=
+  ⟨unwrap_ok_iff r, unwrap_panics_iff r, expect_ok_iff r msg, expect_panics_iff r msg,
+   fun m h => expect_message r msg m h⟩
+
+/-- the defaulting forms never panic: the reply on `Success`, the default otherwise; the
+closure-taking ones are LAZY — the closure runs exactly once iff the result is not a
+`Success`, never otherwise -/
+theorem callResult_defaults_total_and_lazy (r : CR α) (d : α) (f : Unit → α) (e : ε) (g : Unit → ε) :
+    unwrapOr r d = (match r with | .success v => v | _ => d) ∧
+    unwrapOrElse r f = (unwrapOr r (f ()), if isSuccess r then 0 else 1) ∧
+    successOr r e = (match r with | .success v => .ok v | _ => .error e) ∧
+    successOrElse r g = (successOr r (g ()), if isSuccess r then 0 else 1) :=
+  ⟨unwrapOr_eq r d, unwrapOrElse_eq r f, successOr_eq r e, successOrElse_eq r g⟩
+
+/-- `map` is a functor on the reply that keeps the variant, and calls the mapping exactly once
+iff `Success` -/
+theorem callResult_map_functor (r : CR α) (f : α → β) (g : β → γ) :
+    CallRes.map r id = r ∧ CallRes.map (CallRes.map r f) g = CallRes.map r (g ∘ f) ∧
+    isSuccess (CallRes.map r f) = isSuccess r ∧ isTimeout (CallRes.map r f) = isTimeout r ∧
+    isSendError (CallRes.map r f) = isSendError r ∧
+    (∀ w, CallRes.map r f = .success w ↔ ∃ v, r = .success v ∧ f v = w) ∧
+    mapCalls r = (if isSuccess r then 1 else 0) :=
+  ⟨map_id r, map_comp r f g, (map_flags r f).1, (map_flags r f).2.1, (map_flags r f).2.2,
+   map_success_iff r f, mapCalls_eq r⟩
+
+/-- `map_or` / `map_or_else` factor through `map` and `unwrap_or`; exactly one of the two
+closures of `map_or_else` runs, exactly once -/
+theorem callResult_mapOr_via_map (r : CR α) (d : β) (dl : Unit → β) (f : α → β) :
+    mapOr r d f = unwrapOr (CallRes.map r f) d ∧
+    mapOrElse r dl f = (unwrapOr (CallRes.map r f) (dl ()), (if isSuccess r then 0 else 1), mapCalls r) :=
+  ⟨mapOr_eq r d f, mapOrElse_eq r dl f⟩
+
+/-- the conversion the `call!` / `call_t!` / `forward!` macros apply to a non-success result:
+`Timeout ↦ RactorErr::Timeout`, `SenderError ↦ Messaging(ChannelClosed)`; it panics iff handed
+a `Success` -/
+theorem callResult_error_conversion (r : CR α) :
+    ((∃ m, toErr r = .error m) ↔ isSuccess r = true) ∧
+    (toErr r = .ok .timeout ↔ isTimeout r = true) ∧
+    (toErr r = .ok .channelClosed ↔ isSendError r = true) :=
+  ⟨toErr_panics_iff r, (toErr_ok r).1, (toErr_ok r).2⟩
+
+/-- the run-time oracle `CallRes.check` (what `Driver/C09Pure.lean` evaluates on the real
+combinators' outputs) accepts everything the model computes -/
+theorem callResult_oracle_accepts_model (r : CR Nat) (d : Nat) (f : Nat → Nat) (e : Nat) (msg : String) :
+    check r d f e (observe r d f e msg) = [] := check_observe r d f e msg
+
+-- non-vacuity: the oracle is not trivially empty — it rejects an eager `unwrap_or_else`
+example : check (.success 5) 3 (· + 1) 4
+    { observe (.success 5) 3 (· + 1) 4 "boom" with unwrapOrElse := (5, 1) } = ["c09.callresult-unwrap-or"] := by
+  decide
+
+end CallResultBlock
+/-! ## END CallResult block -/
+
+/-! ## BEGIN CallRace block (agent `ports`): a `call` racing the callee's handlers and exit at the
+granularity of the schedule points inside `send_message` — the interleavings of caller, callee
+and killer that the quiescent-point engine above does not run. Model `Model/CallRace.lean`
+(reply ports are separate one-shot cells addressed by id; the mailbox carries port ids), lemmas
+`Lemmas/CallRace.lean`, tie: E-THR `harness/hcore/src/bin/rpcrace.rs` + `Driver/CallRace.lean`.
+Every theorem is for ALL schedules: any number of callers, any interleaving of their micro-steps
+(status check, ticket CAS with retries, box, push, ticket release, polls) with handler steps and
+the three steps of the callee's exit (`Stopping`, `Stopped`, receiver dropped). -/
+section CallRaceBlock
+open CallRace
+
+/-- (no hang) Once the callee's task has ended, a caller whose send had succeeded and who is
+awaiting its reply gets an answer at its very next poll — `Success` or `SenderError`, never a
+send error. -/
+theorem race_no_hang (sched : List Step) (i : Nat)
+    (hgone : (run init sched).rxAlive = false)
+    (hw : (run init sched).pcs i = .waiting ∨ (run init sched).pcs i = .release true) :
+    ∃ r, (step (run init sched) (.c i)).pcs i = .done r ∧ r ≠ .sendErr :=
+  no_hang (inv_run sched inv_init) i hgone hw
+
+/-- (the caller always comes back) After the callee has exited, a caller — wherever it is inside
+`call`: before the status check, in the ticket CAS loop, about to push — returns within 6 of
+its own steps. -/
+theorem race_caller_terminates (sched : List Step) (i : Nat)
+    (hgone : (run init sched).rxAlive = false) (hst : (run init sched).status ≥ 1) :
+    ∃ n, n ≤ 6 ∧ ∃ r, (solo n (run init sched) i).pcs i = .done r :=
+  caller_terminates (inv_run sched inv_init) i hgone hst
+
+/-- (no cross-wiring, with ports as separate objects) A caller that got `Success v` read it
+from the port IT created; that port was written by the handler that dequeued the message
+carrying this very port id, with this call's value; no port is dequeued twice. -/
+theorem race_success_is_own_reply (sched : List Step) (i v : Nat)
+    (h : (run init sched).pcs i = .done (.success v)) :
+    (run init sched).ports i = .written v ∧ v = val i ∧ (i, some v) ∈ (run init sched).handled ∧
+      ∀ x, (i, x) ∈ (run init sched).handled → x = some v := by
+  have hinv := inv_run sched inv_init
+  have hp := hinv.doneSuccess i v h
+  have hw := hinv.written i v hp
+  exact ⟨hp, hw.1, hw.2, fun x hx => hinv.once i x (some v) hx hw.2⟩
+
+/-- (`SenderError` = own port dropped unanswered) by the handler that dequeued it, or with the
+mailbox when the callee's task ended — and then no handler ever saw it. -/
+theorem race_senderError_cause (sched : List Step) (i : Nat)
+    (h : (run init sched).pcs i = .done .senderError) :
+    (run init sched).ports i = .closed ∧
+      ((i, none) ∈ (run init sched).handled ∨
+        (i ∈ (run init sched).flushed ∧ ∀ x, (i, x) ∉ (run init sched).handled)) := by
+  have hinv := inv_run sched inv_init
+  have := hinv.doneSenderError i h
+  refine ⟨this.1, this.2.elim Or.inl fun a => Or.inr ⟨a, fun x hx => hinv.flushedFresh i x hx a⟩⟩
+
+/-- (a refused send is never handled) `Err(SendErr)` means the message never entered the
+mailbox: no handler dequeued it and it was not flushed either. -/
+theorem race_refused_never_handled (sched : List Step) (i : Nat)
+    (h : (run init sched).pcs i = .done .sendErr) :
+    i ∉ (run init sched).queue ∧ (∀ x, (i, x) ∉ (run init sched).handled) ∧
+      i ∉ (run init sched).flushed :=
+  (inv_run sched inv_init).doneSendErr i h
+
+/-- (a waiting caller's port is somewhere live) While a caller is still waiting with an
+unanswered port, the message carrying it is in the mailbox of a callee whose receiver exists. -/
+theorem race_waiting_means_queued (sched : List Step) (i : Nat)
+    (hw : (run init sched).pcs i = .waiting) (hu : (run init sched).ports i = .unset) :
+    i ∈ (run init sched).queue ∧ (run init sched).rxAlive = true := by
+  have hinv := inv_run sched inv_init
+  have hq := hinv.live i (Or.inl hw) hu
+  refine ⟨hq, ?_⟩
+  cases hr : (run init sched).rxAlive with
+  | true => rfl
+  | false => have := hinv.rxGone hr; rw [this] at hq; cases hq
+
+/-- the run-time oracle `CallRace.judge` accepts every result the model hands to a caller -/
+theorem race_oracle_accepts_model (sched : List CallRace.Step) (i : Nat) (r : CallRace.Res)
+    (hr : obsRes (run init sched) i = some r) (gone : Bool) (polls : Nat) :
+    judge (some r) gone polls i (handledAs (run init sched) i) = [] :=
+  judge_resolved (inv_run sched inv_init) i r hr gone polls
+
+-- non-vacuity: the push lands after `Stopping` was published but before the receiver is dropped — the message
+-- is flushed, the caller gets `SenderError`; and a second caller whose CAS fails once retries
+example : ((run init [.c 0, .c 0, .c 0, .c 0, .c 0, .setStopping, .c 0, .c 0, .dropRx, .setStopped, .c 0]).pcs 0)
+    = .done .senderError := by decide
+example : ((run init [.c 0, .c 0, .c 0, .c 1, .c 1, .c 1, .c 0, .c 1, .c 1]).pcs 1, (run init
+    [.c 0, .c 0, .c 0, .c 1, .c 1, .c 1, .c 0, .c 1, .c 1]).count) = (.box, 2) := by decide
+example : judge none true 1 0 none = ["c09.caller-left-hanging"] := by decide
+
+end CallRaceBlock
+/-! ## END CallRace block -/
+
 end C09
 
 #print axioms C09.ok_reachable
+#print axioms C09.caller_reads_own_port
+#print axioms C09.sent_iff_channel_holds
+#print axioms C09.port_written_at_most_once
 #print axioms C09.success_is_own_reply
 #print axioms C09.senderError_is_own_drop
 #print axioms C09.waiting_only_while_port_alive
 #print axioms C09.waits_only_for_live_callee
+#print axioms C09.dead_callee_completes_unless_port_moved
+#print axioms C09.stopped_callee_caller_may_wait_while_supervisor_keeps_state
+#print axioms C09.event_port_held_and_not_failed
+#print axioms C09.dropped_port_completes
+#print axioms C09.orphaned_event_port_is_dropped
+#print axioms C09.dropped_waiting_call_gets_senderError
+#print axioms C09.replied_waiting_call_gets_success
+#print axioms C09.event_held_by_one_supervisor
+#print axioms C09.supdrop_completes_callers
+#print axioms C09.suphandle_drop_completes_callers
+#print axioms C09.supexit_completes_callers
+#print axioms C09.dead_supervisor_holds_no_event
 #print axioms C09.answered_by_deadline
 #print axioms C09.timeout_not_early
 #print axioms C09.dead_actor_owns_no_port
 #print axioms C09.port_queued_once
 #print axioms C09.multi_call_request_order
+#print axioms C09.multi_call_result_index
+#print axioms C09.multi_call_result_vector
+#print axioms C09.multi_call_answered_by_deadline
+#print axioms C09.multi_call_step_request_order
+#print axioms C09.forward_exactly_once
 #print axioms C09.forward_only_on_transition
+#print axioms C09.callResult_flags_exactly_one
+#print axioms C09.callResult_unwrap
+#print axioms C09.callResult_defaults_total_and_lazy
+#print axioms C09.callResult_map_functor
+#print axioms C09.callResult_mapOr_via_map
+#print axioms C09.callResult_error_conversion
+#print axioms C09.callResult_oracle_accepts_model
+#print axioms C09.race_no_hang
+#print axioms C09.race_caller_terminates
+#print axioms C09.race_success_is_own_reply
+#print axioms C09.race_senderError_cause
+#print axioms C09.race_refused_never_handled
+#print axioms C09.race_waiting_means_queued
+#print axioms C09.race_oracle_accepts_model
